@@ -263,6 +263,28 @@ main(int argc, char **argv)
 				cache_flush(cache);
 				printf("flush done");
 				break;
+			case 'r': {
+				/* def_realloc_caches: allocate the new cache, then
+				 * free the old one (cleanup callback on its cached
+				 * entries) */
+				struct cache *old = cache, *new;
+				unsigned ncap = strtoul(tok + 2, NULL, 10);
+				if (npend || nplain || !ncap) { printf("skip"); continue; }
+				new = cache_alloc(ncap, sizeof(uint64_t));
+				if (!new) { printf("ALLOC-FAILED"); dead = 1; continue; }
+				cache_free(old);	/* cleanup_cb still indexes the old cache */
+				cache = new;
+				set_cache_entry_cleanup(cache, cleanup_cb, NULL);
+				for (i = 0; i < 2 * ncap; ++i) {
+					cache->ce[i].key = STALE_KEY + i;
+					cache->ce[i].state = cs_valid;
+				}
+				cache->inflight = 0;
+				for (i = 0; i < ncap; ++i)
+					((uint64_t *)cache->data)[i] = GARBAGE;
+				printf("realloc:%u done", ncap);
+				break;
+			}
 			default:
 				printf("BAD-OP");
 				continue;
